@@ -135,7 +135,7 @@ def c17(tier, seed):
     fam("url", 7 + X, 2, 2); fam("b64", 7 + X, 2, 2); fam("hex", 8 + X, 1, 1); fam("query", 7 + X, 2, 3)
     fam("ini", 5 + X, 16 if X else 6, 8); fam("inifile", 5 + X, 16 if X else 8, 3)
     fam("apache0", 5 + X, 16 if X else 6, 8); fam("apache3", 5 + X, 16 if X else 6, 8)
-    fam("longline", 0, 1, 4)
+    fam("longline", 0, 1, 4); fam("iniref", 4 + X, 8 if X else 4, 3)
     # the parser families again in the unoptimised, uninstrumented build (uninitialised-stack oracle)
     for name, L, shards in (("apache0", 5 + X, 4), ("apache3", 5 + X, 4), ("ini", 5 + X, 4), ("inifile", 4 + X, 2), ("query", 6 + X, 1)):
         for i in range(shards):
@@ -152,7 +152,7 @@ def c17(tier, seed):
       "types STR/INT/FLOAT/BOOL x argument vectors over 34 values incl. all 24 boolean spellings; (ii) every argument list "
       "of <= 3 arguments over 12 strings x bare/single/double quoting x 4 separators x 2 line endings; (iii) every document "
       "of nested blocks (<= 2 items per block, nesting depth <= 2; thorough depth 3) over scoped options, two section options, "
-      "unregistered and wrong-case names, closes that match / mismatch / are missing, x 4 flag sets (one section id above bit 31); "
+      "unregistered and wrong-case names, an unregistered section (with QAC_IGNOREUNKNOWN), blanks before the closing bracket, closes that match / mismatch / are missing, x 4 flag sets (one section id above bit 31); "
       "(iv) d nested sections for every d = 1..300 (600): level == number of parents, beyond 255 only a refusal naming line 256; "
       "INI files with <= 3 (4) lines over four include directives whose file names are prefixes of each other and values containing directive text. "
       "non-trivial = contains a reference/section, an accepted typed directive, a quoted argument, or a section",
@@ -177,7 +177,7 @@ def c20(tier, seed):
         jobs.append(Job("actype-%d" % p, H, ["actype", p], wraps=W, weight=4))
     for i in range(4):
         jobs.append(Job("acquote-%d" % i, H, ["acquote", 3, i, 4], wraps=W, weight=4))
-    for f, sh in ((0, 1), (1, 12), (2, 10), (3, 10)):
+    for f, sh in ((0, 1), (1, 12), (2, 14), (3, 10)):
         for i in range(sh):
             jobs.append(Job("acstruct-f%d-%02d" % (f, i), H, ["acstruct", f, 2, 2 + X, i, sh], wraps=W, weight=12))
     # unoptimised, uninstrumented build (uninitialised-stack oracle) for the rejecting / nesting paths
